@@ -285,6 +285,7 @@ type LState struct {
 	currentFrame *callFrame
 	wrapped      bool
 	resumed      bool // LState.Resume has started the body
+	resumeTop    int  // register top the results of the pending yield extend to (0: none or open)
 	uvcache      *Upvalue
 	hasErrorFunc bool
 	mainLoop     func(*LState, *callFrame)
